@@ -8,11 +8,14 @@ BASE_CMD = ("cd /repo && /venv/bin/python -m pytest -ra -q -p no:cacheprovider -
             "--continue-on-collection-errors")
 
 CHECKS = {
-    "C05": dict(ref="§4.5", tech="TLC model checking of Lexer.tla (Total/NoCrash/Progress) + replay of every exported behaviour + TLC trace validation",
+    "C05": dict(ref="§4.5", tech="TLC model checking of Lexer.tla (Total/NoCrash/Progress) + replay of every exported behaviour + TLC trace validation; TLC-enumerated token edits of Norm/Viol derivations (Edits.tla) replayed through the whole pipeline",
                 text="TLC explores the tokenizer model exhaustively over seven focused alphabets (every string up to the stated length): every "
                      "non-final state has a successor, every step consumes input, nothing crashes. Every explored string is replayed into the real "
                      "Lexer (no exception, token count bounded, tokens equal to the model's); differing executions are validated by TLC against "
-                     "LexerTrace.tla. Very long runs are a deterministic family argued by the model's Progress property.",
+                     "LexerTrace.tla. Very long runs are a deterministic family argued by the model's Progress property. Whole pipeline: Edits.tla applies "
+                     "every bounded item-level edit (delete / insert / replace / swap / truncate after a token) to every small conforming and violating derivation of "
+                     "Norm.tla/Viol.tla, for both file types; each edited program runs through Lexer + Registry.run under a watchdog: the outcome must be a verdict or a "
+                     "CParsingError, never another exception or a timeout.",
                 note="bounded alphabets/lengths; observation through the public iterator and Lexer._Lexer__pos"),
     "C09": dict(ref="§4.9", tech="TLC model checking of Lexer.tla (PosInv against the closed-form TruePos) + replay + TLC trace validation of positions",
                 text="TLC checks on every string of the configured alphabets that the incrementally maintained (line, column) of the "
@@ -31,12 +34,14 @@ CHECKS = {
                      "each and evaluates ClassOK; departures of the transcribed implementation from the grammar are found inside the model. "
                      "Every behaviour is replayed into the real Lexer and judged by the same law.",
                 note="digit strings and contexts bounded per level; don't-care shapes listed in DESIGN 4.11"),
-    "C12": dict(ref="§4.12", tech="TLC model checking of LexerRespell.tla (two machine instances, RespellInv over every faithful respelling) + paired replay",
+    "C12": dict(ref="§4.12", tech="TLC model checking of LexerRespell.tla (two machine instances, RespellInv over every faithful respelling) + paired replay; RespellProg.tla program-level respellings replayed through the whole tool",
                 text="Two instances of the tokenizer machine run on a plain text and on every faithful respelling of it (digraph/trigraph per "
                      "character, none/one/two splices per token boundary); TLC checks that both produce the same (type, text) sequence for every "
                      "plain text of three alphabets up to the bound. Every exported pair is replayed: the real Lexer must produce equal "
-                     "(type, value) sequences on both texts.",
-                note="bounded alphabets/lengths/number of non-plain choices; program-level part (diagnostics under brace/bracket respelling) is checked with the Norm corpus"),
+                     "(type, value) sequences on both texts. Program level: RespellProg.tla respells whole derivations of Norm.tla / Viol.tla (all brace-like tokens as digraphs or "
+                     "trigraphs, one line only, a splice at a token boundary); both renderings run through the whole tool: same tokens, and for the brace modes the same diagnostics "
+                     "(codes and lines; LINE_TOO_LONG on lines that the longer spelling pushes past 80 excepted).",
+                note="bounded alphabets/lengths/number of non-plain choices; program level simulated (seeded)"),
     "C04": dict(ref="§4.4", tech="TLC model checking of Driver.tla (history family: OneVerdictPerFile, OKIffNoError, ExitZeroIffAllOK, FatalNamesFileAndFails, EmptySelectionClean) + CLI replay of every behaviour",
                 text="TLC explores main() as a state machine over every sequence of file classes (clean, notice, erroneous, unparsable, unparsable in #if) up to the bound, "
                      "given as explicit paths or through a directory, in both formats, and checks the verdict/exit-status properties in every final state. Every explored "
@@ -66,10 +71,14 @@ CHECKS = {
                      "of a small bound exhaustively and the full grammar in simulation, checking that the tabs written equal the engine's indentation, widths stay <= 80 and counters "
                      "within limits. Every derivation is concretised and run: verdict OK, no Error-level diagnostic, no fatal error; a sample through the real command line.",
                 note="the conforming grammar is my reading of the Norm (DESIGN 4.1); simulation is seeded; expression table of Expr.tla swept exhaustively in the thorough tier"),
-    "C07": dict(ref="§4.7", tech="TLC exploration of Norm.tla (statement kind + scope chain per line; DepthZeroAtTop) + statement events observed at Context.pop_tokens compared with the derivation",
+    "C07": dict(ref="§4.7", tech="TLC exploration of Norm.tla (statement kind + scope chain per line; DepthZeroAtTop) + statement events observed at Context.pop_tokens compared with the derivation; Garbage.tla insertions replayed; TLC model checking of EngineMC.tla + TLC trace validation of recorded statement traces (EngineTrace.tla)",
                 text="Each derivation of Norm.tla carries, per line, the statement the engine must report. The events observed at Context.pop_tokens for the concretised program must "
                      "tile the token list, each consume at least one token, be exactly as many as the derivation has lines, start in column 1, end with NEWLINE, and the scope must be "
-                     "back at file level after each function; unrecognisable fragments inserted at statement boundaries must end in a fatal diagnostic.",
+                     "back at file level after each function. Garbage.tla inserts every unrecognisable fragment of its catalogue at every token boundary of small derivations, with and "
+                     "without trailing newline: the run must end in a fatal diagnostic / Error, never OK!. The engine's design (Engine.tla: Registry.run loop, Context.update, "
+                     "IsBlockStart history walk, IsBlockEnd, pending scope, single-line control scopes) is model-checked over every well-bracketed event sequence up to the bound "
+                     "(EngineMC.tla: DepthMatches, DepthBack, LinesConserved, WellFormed), and statement traces recorded from the real Registry.run on the repository's sample files "
+                     "and on a corpus sample are validated event by event by TLC (EngineTrace.tla: partition, well-formedness, depth strict; chain / line counters vs Engine!Step soft).",
                 note="observation by wrapping Context.pop_tokens (harness-side); rule-kind equality is a soft check"),
     "C02": dict(ref="§4.2", tech="TLC exploration of Viol.tla (Norm.tla + 62 violation operators, one applied at one site; simulation + exhaustive (operator, site) pairs over small structures) + replay",
                 text="A completed conforming derivation receives exactly one operator of the violation catalogue at one applicable site; the state records the code(s) that must be "
@@ -80,7 +89,9 @@ CHECKS = {
     "C03": dict(ref="§4.3", tech="TLC enumeration of Limits.tla (complete product limit x measure x context, MeasureOK through the specification's width/count functions) + replay with iff oracle",
                 text="For each limit and each measure n in [L-3, L+6] and each context, Limits.tla builds one derivation from Norm.tla's line constructors; TLC enumerates the whole product and "
                      "checks that the measure computed by the specification (visual width with 4-column tab stops, counts) is n. Each derivation is run with several spellings: the limit "
-                     "diagnostic must be on the expected line if and only if n > L.",
+                     "diagnostic must be on the expected line if and only if n > L. The engine behind the 25-line limit is model-checked (EngineMC.tla: line breaks are conserved through "
+                     "every nesting, the Function scope holds exactly the lines of the body) and the recorded scope chain / line counters of the function-length cases are validated "
+                     "against Engine!Step by TLC (EngineTrace.tla).",
                 note="700+ cases; contexts listed in the evidence rule"),
     "C13": dict(ref="§4.13", tech="TLC enumeration of Header42.tla (template as 80-column abstract lines, HeaderOK recogniser, 31 structural mutations) + replay counting INVALID_HEADER",
                 text="The stdheader template is a sequence of abstract lines whose widths TLC checks to be exactly 80 for every shape; the intended recogniser accepts it and rejects every "
